@@ -2,7 +2,7 @@
    op list together with what the implementation returned; [check_case] runs the float
    instance of the model on the same ops and reports the first op whose observable differs
    (bit-exact, NaN canonicalised), then compares the byte images of the final states. *)
-From Coq Require Import Floats String.
+From Coq Require Import Floats String Uint63.
 From TA Require Import Base Model Generic FloatInst.
 Open Scope N_scope.
 
@@ -59,7 +59,29 @@ Definition obs_eqb (a b : fobs) : bool :=
       beq (b_close x) (b_close y) && beq (b_volume x) (b_volume y)
   | _, _ => false end.
 
-Record case := mkCase { c_ops : list fop; c_exp : list fobs; c_img : list (nat * N * N) }.
+(* state images are shipped as the values of consecutive 4-byte little-endian chunks, written as
+   float literals (number literals of type N are slow to parse), plus the byte length *)
+Record case := mkCase { c_ops : list fop; c_exp : list fobs; c_img : list (nat * list float * N) }.
+
+Definition le_bytes (k : nat) (n : N) : list N :=
+  (fix go (k : nat) (n : N) : list N := match k with O => [] | S k => (n mod 256) :: go k (n / 256) end) k n.
+
+Definition item_to_bytes (i : @item float) : list N :=
+  match i with U64 n => le_bytes 8 n | F64 f => le_bytes 8 (float_bits f) | U8 n => [n] end.
+
+Fixpoint group4 (l : list N) : list N :=
+  match l with
+  | a :: b :: c :: d :: r => (a + 256 * b + 65536 * c + 16777216 * d) :: group4 r
+  | [a; b; c] => [a + 256 * b + 65536 * c]
+  | [a; b] => [a + 256 * b]
+  | [a] => [a]
+  | [] => []
+  end.
+
+Definition n2f (n : N) : float := PrimFloat.of_uint63 (Uint63.of_Z (Z.of_N n)).
+Definition chunks (s : @St float) : list float := map n2f (group4 (flat_map item_to_bytes (ser s))).
+Fixpoint feq_list (a b : list float) : bool :=
+  match a, b with [], [] => true | x :: a, y :: b => PrimFloat.eqb x y && feq_list a b | _, _ => false end.
 
 (* index (from 1) of the first differing observation; 0 if none *)
 Fixpoint first_diff (k : N) (a b : list fobs) : N :=
@@ -69,18 +91,18 @@ Fixpoint first_diff (k : N) (a b : list fobs) : N :=
   | _, _ => k
   end.
 
-Definition img_ok (st : @store float) (e : nat * N * N) : bool :=
+Definition img_ok (st : @store float) (e : nat * list float * N) : bool :=
   let '(slot, v, n) := e in
   match sget st slot with
   | None => false
-  | Some s => let '(v', n') := image (ser s) in (v =? v') && (n =? n') && (n =? ser_len s)
+  | Some s => feq_list v (chunks s) && (n =? ser_len s)
   end.
 
 (* 0 = agreement; k = first differing op (from 1); 1000000 + j = state image j differs *)
 Definition check_case (c : case) : N :=
   let '(st, os) := run FOps [] (c_ops c) in
   match first_diff 1 os (c_exp c) with
-  | 0 => (fix go (j : N) (l : list (nat * N * N)) : N :=
+  | 0 => (fix go (j : N) (l : list (nat * list float * N)) : N :=
             match l with [] => 0 | e :: r => if img_ok st e then go (j + 1) r else 1000000 + j end)
            1 (c_img c)
   | k => k end.
